@@ -57,6 +57,31 @@ type sk struct {
 	note string
 }
 
+// code is the prefix code of the skeleton for `skel` lines.
+func (s *sk) code() string {
+	switch s.kind {
+	case "empty":
+		return "e"
+	case "chars":
+		return "c"
+	case "ext":
+		return "x"
+	case "startTok":
+		return "S"
+	case "stopTok":
+		return "E"
+	case "wrap":
+		return "w" + s.a.code()
+	case "many":
+		return "m" + s.a.code()
+	case "seq":
+		return "s" + s.a.code() + s.b.code()
+	case "alt":
+		return "a" + s.a.code() + s.b.code()
+	}
+	return "u"
+}
+
 func (s *sk) lean() string {
 	switch s.kind {
 	case "wrap", "many":
@@ -423,14 +448,34 @@ var requiredWriters = []string{
 	"styling.Unstyled.TokenReader", "saslerr.Condition.TokenReader", "saslerr.Error.TokenReader",
 }
 
+type writer struct {
+	name string
+	s    *sk
+}
+
 // Facts regenerates lean/XmppModel/Generated/C19.lean.
 func Facts(repo string) (string, error) {
-	type writer struct {
-		name string
-		s    *sk
+	writers, transformers, notes, err := extract(repo)
+	if err != nil {
+		return "", err
 	}
-	var writers []writer
-	var transformers, notes []string
+	return render(writers, transformers, notes), nil
+}
+
+// skeletons returns the prefix code of every writer (for `skel` lines).
+func skeletons(repo string) map[string]string {
+	m := map[string]string{}
+	writers, _, _, err := extract(repo)
+	if err != nil {
+		return m
+	}
+	for _, w := range writers {
+		m[w.name] = w.s.code()
+	}
+	return m
+}
+
+func extract(repo string) (writers []writer, transformers, notes []string, err error) {
 	for _, dir := range anchoredDirs {
 		fset := token.NewFileSet()
 		ents, err := os.ReadDir(filepath.Join(repo, dir))
@@ -447,7 +492,7 @@ func Facts(repo string) (string, error) {
 			}
 			f, err := parser.ParseFile(fset, filepath.Join(repo, dir, n), nil, 0)
 			if err != nil {
-				return "", err
+				return nil, nil, nil, err
 			}
 			p.name = f.Name.Name
 			anch := true
@@ -507,6 +552,10 @@ func Facts(repo string) (string, error) {
 	}
 	sort.Slice(writers, func(i, j int) bool { return writers[i].name < writers[j].name })
 	sort.Strings(transformers)
+	return writers, transformers, notes, nil
+}
+
+func render(writers []writer, transformers, notes []string) string {
 	var sb strings.Builder
 	sb.WriteString("-- GENERATED by `harness facts C19` from the anchored files of C19; do not edit.\n")
 	sb.WriteString("import XmppModel.Model.Payload\n")
@@ -539,5 +588,5 @@ func Facts(repo string) (string, error) {
 		fmt.Fprintf(&sb, "  (%q, %s)%s\n", n, val, sep)
 	}
 	sb.WriteString("]\n\nend XmppModel.Generated.C19\n")
-	return sb.String(), nil
+	return sb.String()
 }
